@@ -66,6 +66,17 @@ def dipole_Hfield(
             / np.pi
         )
 
+    # very close to the dipole r**5 underflows although the field is still representable:
+    # evaluate with the unit vector towards the observer there
+    mask0 = (r > 0) & (r < 1e-60)
+    if np.any(mask0):
+        unit = observers[mask0].T / r[mask0]
+        mom = moments[mask0].T
+        with np.errstate(over="ignore", invalid="ignore"):
+            H[mask0] = ((3 * np.sum(mom * unit, axis=0) * unit - mom) / r[mask0] ** 3).T / (
+                4 * np.pi
+            )
+
     # when r=0 return np.inf in all non-zero moments directions
     mask1 = r == 0
     if np.any(mask1):
